@@ -160,4 +160,32 @@ def submitAt (snap : Bool) (path : List Nat) (root : Node) : Option (Node × Job
 def finishAt (cfg : Cfg) (fails : Nat → Bool) (job : Job) (path : List Nat) (root : Node) : Option Node :=
   updateAt (finish cfg fails job) path root
 
+/-! ## what the executor does with the job -/
+
+/-- the job ran to its end (and `finish` processes what came back), it was cancelled before the executor
+started it (`future.cancel()`, `shutdown(cancel_futures=True)`), or it was lost (pool shut down or broken in
+mid-flight): in the last two cases the future raises in the done-callback -/
+inductive Outcome | done | cancelled | lost
+  deriving Repr, DecidableEq
+
+/-- `_finish_run` for any outcome. `quiet`: a cancellation returns normally ("cancelling is not failing");
+/repo treats every exception from the future like a failure of a local run. -/
+def finishO (cfg : Cfg) (fails : Nat → Bool) (quiet : Bool) : Outcome → Job → Node → Option Node
+  | .done, job, n => finish cfg fails job n
+  | .cancelled, _, n =>
+    some (n.setOwn { n.own with running := false, failed := if quiet then n.own.failed else true })
+  | .lost, _, n => some (n.setOwn { n.own with running := false, failed := true })
+
+def finishOAt (cfg : Cfg) (fails : Nat → Bool) (quiet : Bool) (oc : Outcome) (job : Job) (path : List Nat)
+    (root : Node) : Option Node :=
+  updateAt (finishO cfg fails quiet oc job) path root
+
+/-! ## keyword binding of the inputs at submission
+
+`executor.submit(self.on_run, *args, **inputs)`: the node's inputs travel as keyword arguments through
+`submit(fn, /, *args, **kwargs)` of the executor.  A parameter of `submit` that can be passed by keyword
+captures an input of the same name (`TypeError: got multiple values for argument`). -/
+def bindsOk (keywordParams : List String) (labels : List String) : Bool :=
+  labels.all fun l => !keywordParams.contains l
+
 end PwVerif.Remote
